@@ -71,11 +71,17 @@ type c17Ups struct {
 	w  *c17World
 }
 
-type c17NetErr struct{}
+// c17NetErr is the network error of an upstream that is down: silent (a time-out) or refusing.
+type c17NetErr struct{ timeout bool }
 
-func (c17NetErr) Error() string   { return "scripted i/o timeout" }
-func (c17NetErr) Timeout() bool   { return true }
-func (c17NetErr) Temporary() bool { return true }
+func (e c17NetErr) Error() string {
+	if e.timeout {
+		return "scripted i/o timeout"
+	}
+	return "scripted connection refused"
+}
+func (e c17NetErr) Timeout() bool   { return e.timeout }
+func (e c17NetErr) Temporary() bool { return e.timeout }
 
 func (u *c17Ups) Close() error   { return nil }
 func (u *c17Ups) String() string { return u.id }
@@ -112,7 +118,7 @@ func (u *c17Ups) Exchange(ctx context.Context, req *dns.Msg) (resp *dns.Msg, nw 
 			Txt: []string{u.id}})
 		return resp, NetworkUDP, nil
 	case "down":
-		return nil, NetworkUDP, fmt.Errorf("udp network reading: %w", &net.OpError{Op: "read", Net: "udp", Err: c17NetErr{}})
+		return nil, NetworkUDP, fmt.Errorf("udp network reading: %w", &net.OpError{Op: "read", Net: "udp", Err: c17NetErr{timeout: u.w.probes%3 != 0}})
 	default: // garbage
 		return nil, NetworkTCP, fmt.Errorf("validating tcp response: %w", dns.ErrId)
 	}
